@@ -998,9 +998,8 @@ func polyMvHint(mod *big.Int, inputs, outputs []*big.Int) error {
 				termVarLimbs = append(termVarLimbs, varsLimbs[i])
 			}
 		}
-		if len(termVarLimbs) == 0 {
-			continue
-		}
+		// a term without variables is the constant term. It contributes its
+		// coefficient to the lowest limb, as in the in-circuit evaluation.
 		termRes := []*big.Int{new(big.Int).Set(coeffs[i])}
 		// perform limbwise multiplication
 		for _, toMul := range termVarLimbs {
